@@ -6,4 +6,12 @@ import OsacaVerif.Lemmas.Text
 import OsacaVerif.Props.C12
 import OsacaVerif.Spec.X86Ast
 import OsacaVerif.Model.ParseX86
+import OsacaVerif.Spec.X86Render
+import OsacaVerif.Lemmas.ParseX86Basic
+import OsacaVerif.Lemmas.ParseX86Num
+import OsacaVerif.Lemmas.ParseX86Tok
+import OsacaVerif.Lemmas.ParseX86Mem
+import OsacaVerif.Lemmas.ParseX86Op
+import OsacaVerif.Lemmas.ParseX86Line
+import OsacaVerif.Lemmas.ParseX86File
 import OsacaVerif.Props.C09
